@@ -18,7 +18,6 @@ import (
 
 	"github.com/transparency-dev/witness/internal/config"
 	"github.com/transparency-dev/witness/internal/feeder/bastion"
-	"github.com/transparency-dev/witness/omniwitness"
 	"github.com/transparency-dev/witness/verifharness/internal/ref"
 	"github.com/transparency-dev/witness/verifharness/internal/world"
 	"golang.org/x/time/rate"
@@ -315,8 +314,8 @@ func execBastionRun(base *world.World, r bastionRun, storeKind, embed string, se
 	if limit < 0 {
 		limit = 0
 	}
-	h := bastion.VerifNewHandler(bastion.Config{Logs: logs, WitnessVerifier: witV, Limits: bastion.RequestLimits{TotalPerSecond: rate.Limit(limit)}},
-		omniwitness.VerifWitnessAdapter(wit))
+	h := shimNewHandler(bastion.Config{Logs: logs, WitnessVerifier: witV, Limits: bastion.RequestLimits{TotalPerSecond: rate.Limit(limit)}},
+		witnessAdapterOf(wit))
 	front := bastionFront{post: func(b []byte) (int, string, []byte) { return serve(h, b) }, snap: func() snapshot { return takeSnapshot(w, st.p) }}
 	return driveBastion(w, r, tag, storeKind, embed, limit, front)
 }
@@ -346,7 +345,7 @@ func driveBastion(w *world.World, r bastionRun, tag, storeKind, embed string, li
 		if s.Kind == "unknown-origin" {
 			// a well-formed, validly signed checkpoint of an origin that is not configured
 			l := w.Logs[w.P.Logs[0]]
-			text := ref.CheckpointText(l.Origin+"/not-configured", c.Size, c.Root, "")
+			text := ref.CheckpointText(unknownOrigin(w, l.Origin), c.Size, c.Root, "")
 			c.CP = []byte(text + "\n" + l.Key.SignLegacy(text))
 			for j := w.Rng.Intn(3); j > 0; j-- { // sometimes with proof lines and a non-zero old size
 				h := make([]byte, 32)
@@ -452,13 +451,13 @@ func fuzzCfgMain(args []string) error {
 	cfg := map[string]any{"Origin": l.Origin, "LogVKey": l.Key.VKey(), "WitSKey": w.WitKey.SKey(),
 		"Setup": [][]byte{mk("ok", world.Req{Auth: "good", B: 0, N: 2, Pf: E}, nil)}}
 	seeds := [][]byte{
-		mk("ok", world.Req{Auth: "good", Old: 2, B: 0, N: 3, Pf: world.Pf{K: "right", B: 0, M: 2, N: 3}}, st),   // would be accepted
-		mk("ok", world.Req{Auth: "good", Old: 2, B: 0, N: 2, Pf: E}, st),                                        // refresh
-		mk("ok", world.Req{Auth: "good", Old: 1, B: 0, N: 3, Pf: world.Pf{K: "right", B: 0, M: 1, N: 3}}, st),   // stale
-		mk("ok", world.Req{Auth: "good", Old: 4, B: 0, N: 3, Pf: E}, st),                                        // old size too large
-		mk("ok", world.Req{Auth: "good", Old: 2, B: 2, N: 2, Pf: E}, st),                                        // root mismatch
-		mk("ok", world.Req{Auth: "good", Old: 2, B: 0, N: 4, Pf: world.Pf{K: "bad", Kind: "flip"}}, st),         // invalid proof
-		mk("ok", world.Req{Auth: "badsig", B: 0, N: 3, Pf: E}, st),                                              // no valid signature
+		mk("ok", world.Req{Auth: "good", Old: 2, B: 0, N: 3, Pf: world.Pf{K: "right", B: 0, M: 2, N: 3}}, st), // would be accepted
+		mk("ok", world.Req{Auth: "good", Old: 2, B: 0, N: 2, Pf: E}, st),                                      // refresh
+		mk("ok", world.Req{Auth: "good", Old: 1, B: 0, N: 3, Pf: world.Pf{K: "right", B: 0, M: 1, N: 3}}, st), // stale
+		mk("ok", world.Req{Auth: "good", Old: 4, B: 0, N: 3, Pf: E}, st),                                      // old size too large
+		mk("ok", world.Req{Auth: "good", Old: 2, B: 2, N: 2, Pf: E}, st),                                      // root mismatch
+		mk("ok", world.Req{Auth: "good", Old: 2, B: 0, N: 4, Pf: world.Pf{K: "bad", Kind: "flip"}}, st),       // invalid proof
+		mk("ok", world.Req{Auth: "badsig", B: 0, N: 3, Pf: E}, st),                                            // no valid signature
 		mk("unknown-origin", world.Req{Auth: "good", B: 0, N: 3, Pf: E}, st),
 		mk("nosize", world.Req{Auth: "good", B: 0, N: 3, Pf: E}, st), mk("notb64", world.Req{Auth: "good", B: 0, N: 3, Pf: E}, st),
 		mk("noblank", world.Req{Auth: "good", B: 0, N: 3, Pf: E}, st), mk("cp-one-line", world.Req{Auth: "good", B: 0, N: 3, Pf: E}, st),
@@ -466,4 +465,24 @@ func fuzzCfgMain(args []string) error {
 	cfg["Seeds"] = seeds
 	b, _ := json.Marshal(cfg)
 	return os.WriteFile(*out, b, 0o644)
+}
+
+// unknownOrigin is an origin that is not configured: short or long, ASCII or not (whatever the endpoint does with the name of an origin it
+// does not know - logging it, labelling a metric with it - must not change the answer).
+func unknownOrigin(w *world.World, base string) string {
+	switch w.Rng.Intn(6) {
+	case 0:
+		return base + "/not-configured"
+	case 1:
+		return base + "/" + strings.Repeat("n", 40+w.Rng.Intn(200))
+	case 2:
+		// multi-byte runes around every small offset
+		return base[:w.Rng.Intn(len(base))] + strings.Repeat("é", 1+w.Rng.Intn(3)) + strings.Repeat("x", w.Rng.Intn(70)) + "ü日本語" + strings.Repeat("y", w.Rng.Intn(70)) + "ø"
+	case 3:
+		return strings.Repeat("日本語のログ", 4+w.Rng.Intn(12))
+	case 4:
+		return strings.Repeat("a", 60+w.Rng.Intn(8)) + "é" + strings.Repeat("b", w.Rng.Intn(10))
+	default:
+		return "not-configured.example/" + strings.Repeat("z", w.Rng.Intn(5)) + "\u00a0\u2028 spaced \"quoted\" {braces}"
+	}
 }
